@@ -4,6 +4,7 @@ package c06
 import (
 	"encoding/base64"
 	"fmt"
+	"strings"
 
 	"verif/engine/core"
 	"verif/gen/vals"
@@ -63,6 +64,46 @@ func Run(r *core.Run) {
 				return nil
 			})
 			r.Observe("calc", want)
+		}
+	}
+	// wide values (content of any size is addressed by its hash): 9999 / 10001 strings, members and numbers at one level, as text,
+	// in a second member order / spacing, and as a Go value; the hash of one form validates the other
+	for _, n := range []int{9999, 10001} {
+		var strsA, mem, memRev []string
+		for k := 0; k < n; k++ {
+			strsA = append(strsA, fmt.Sprintf(`"key-%d"`, k))
+			mem = append(mem, fmt.Sprintf(`"m%06d":"v%d"`, k, k))
+		}
+		for k := n - 1; k >= 0; k-- {
+			memRev = append(memRev, mem[k])
+		}
+		for wi, pair := range [][2]string{{`{"ids":[` + strings.Join(strsA, ",") + `]}`, `{ "ids" : [` + strings.Join(strsA, " , ") + `] }`},
+			{"{" + strings.Join(mem, ",") + "}", "{" + strings.Join(memRev, ",") + "}"}} {
+			pair := pair
+			for _, code := range codes {
+				code := code
+				id := fmt.Sprintf("calc-wide/%d/%d/%d", n, wi, code)
+				r.Case(id, func() *core.Fail {
+					p, err := jcs.Parse([]byte(pair[0]))
+					if err != nil {
+						core.Engine("c06: bad wide value: %v", err)
+					}
+					canon, _ := jcs.Canon(p)
+					want := mh.MustHash(uint64(code), canon)
+					det := map[string]any{"value": pair[0][:100] + " ...", "entries": n, "code": code}
+					for fi, form := range []any{[]byte(pair[0]), []byte(pair[1]), p} {
+						got, err := hashing.CalculateModelMultihash(form, code)
+						if err != nil || got != want {
+							return &core.Fail{Key: id, What: fmt.Sprintf("model multihash of a value with %d entries (form %d): %q (%v), expected %q", n, fi, got, err, want), Detail: det}
+						}
+						if err := hashing.IsValidModelMultihash(form, want); err != nil {
+							return &core.Fail{Key: id, What: fmt.Sprintf("the hash of a value with %d entries does not validate its form %d: %v", n, fi, err), Detail: det}
+						}
+					}
+					return nil
+				})
+				r.Observe(id)
+			}
 		}
 	}
 	// unsupported codes
